@@ -212,7 +212,7 @@ def run_config(cfg):
             try:
                 cons = e.SdcConsumer(xaddrs[0], e.SdcV1Definitions, mk_container() if mode != 'none' else None,
                                      force_ssl_connect=(mode == 'enforced'), components=cc,
-                                     alternative_hostname=ALT if cons_alt else None, socket_timeout=3)
+                                     alternative_hostname=ALT if cons_alt else None, socket_timeout=8)
                 obs['init_ssl'] = cons.is_ssl_connection
                 csrv_shared = mk_shared(cons_server) if cons_server != 'own' else None
                 cons.start_all(shared_http_server=csrv_shared, fixed_renew_interval=None)
@@ -363,10 +363,13 @@ def oracle(ctx, obs):
 def model_lines(obs):
     cfg = obs['cfg']
     prov_tls, prov_server, prov_alt, mode, cons_server, cons_alt = cfg
-    # handshake possible iff the provider's server speaks TLS
-    ok = 1 if obs.get('prov_server_tls') else 0
+    # the TLS handshake succeeds iff the provider's server speaks TLS; a refused handshake is an ssl.SSLError unless the
+    # socket layer reported something else (time-out under load): then nothing was decided (is_ssl_connection unchanged)
+    ok = '1' if obs.get('prov_server_tls') else '0'
+    if ok == '0' and obs.get('init_ssl') is None and obs.get('ssl') is None and obs['start'] not in ('ok', 'SSLError'):
+        ok = 'x'
     evs = f'c{ok}'
-    if obs['start'] in ('ok', 'ValueError'):
+    if any(a[0] == 'hostedEpr' for a in obs['addresses']):
         evs += ' g1' if prov_alt else ' g0'     # the hosted services are addressed by ip, the device by the x-addr
     return [f"crun {mode} {evs}",
             f"sites {prov_tls} {prov_server} {prov_alt} {mode} {cons_server} {cons_alt} {ssl_letter(obs.get('ssl'))}"]
@@ -422,9 +425,11 @@ def consumer_events(ctx, model_cases):
             self.sock_name = ('127.0.0.1', 1)
 
         def connect(self):
-            ok = Scripted.script.pop(0) if Scripted.script else True
-            if self.has_ctx and not ok:
+            ok = Scripted.script.pop(0) if Scripted.script else '1'
+            if self.has_ctx and ok == '0':
                 raise ssl.SSLError('verif: handshake refused')
+            if self.has_ctx and ok == 'x':
+                raise TimeoutError('verif: handshake timed out')
 
         def close(self):
             pass
@@ -444,13 +449,13 @@ def consumer_events(ctx, model_cases):
         for _ in range(rng.randint(1, 8)):
             x = rng.random()
             if x < 0.45:
-                ok = rng.random() < 0.5
-                Scripted.script = [ok, True]
+                ok = rng.choice(['1', '0', '0', 'x'])
+                Scripted.script = [ok, '1']
                 try:
                     cons._connect()
-                except ssl.SSLError:
+                except (ssl.SSLError, TimeoutError):
                     pass
-                evs.append('c1' if ok else 'c0')
+                evs.append('c' + ok)
             elif x < 0.8:
                 n = rng.randrange(3)
                 cons.get_soap_client(f'https://127.0.0.1:{9 + n}/other/path')
